@@ -149,3 +149,135 @@ pub fn mutate(rng: &mut StdRng, b: &[u8]) -> Vec<u8> {
     }
     v
 }
+
+// ---------------------------------------------------------------------------------------------
+// A small walker over encodings the harness itself produced (generation side only: what the
+// re-framed or mutated bytes mean is decided by the specification).
+#[derive(Clone, Copy, Debug)]
+pub struct HeadInfo { pub off: usize, pub hl: usize, pub major: u8, pub info: u8, pub arg: u64 }
+
+fn read_head(b: &[u8], p: usize) -> Option<HeadInfo> {
+    let x = *b.get(p)?;
+    let (major, info) = (x >> 5, x & 31);
+    let (hl, arg) = match info {
+        0..=23 => (1, info as u64),
+        24 => (2, *b.get(p + 1)? as u64),
+        25 => (3, u16::from_be_bytes([*b.get(p + 1)?, *b.get(p + 2)?]) as u64),
+        26 => (5, u32::from_be_bytes(b.get(p + 1..p + 5)?.try_into().ok()?) as u64),
+        27 => (9, u64::from_be_bytes(b.get(p + 1..p + 9)?.try_into().ok()?)),
+        31 => (1, 0),
+        _ => return None
+    };
+    Some(HeadInfo { off: p, hl, major, info, arg })
+}
+
+/// Walk one item at p; calls `f` for every head; returns the end offset.
+pub fn walk(b: &[u8], p: usize, f: &mut dyn FnMut(HeadInfo)) -> Option<usize> {
+    let h = read_head(b, p)?;
+    f(h);
+    let mut q = p + h.hl;
+    match h.major {
+        0 | 1 | 7 => Some(q),
+        2 | 3 => if h.info == 31 { loop { if *b.get(q)? == 0xff { return Some(q + 1) } q = walk(b, q, f)?; } } else { let e = q.checked_add(h.arg as usize)?; if e <= b.len() { Some(e) } else { None } },
+        4 | 5 => {
+            if h.info == 31 { loop { if *b.get(q)? == 0xff { return Some(q + 1) } q = walk(b, q, f)?; } }
+            let n = if h.major == 4 { h.arg } else { h.arg.checked_mul(2)? };
+            for _ in 0..n { q = walk(b, q, f)?; }
+            Some(q)
+        }
+        _ => walk(b, q, f)
+    }
+}
+
+fn reframe_item(rng: &mut StdRng, b: &[u8], p: usize, out: &mut Vec<u8>) -> Option<usize> {
+    let h = read_head(b, p)?;
+    let mut q = p + h.hl;
+    match h.major {
+        0 | 1 | 6 => {
+            let w = pick_width(rng, h.arg, true);
+            head(out, h.major, h.arg, w);
+            if h.major == 6 { return reframe_item(rng, b, q, out) }
+            Some(q)
+        }
+        7 => { out.extend_from_slice(&b[p..p + h.hl]); Some(q) }
+        2 | 3 => {
+            if h.info == 31 { out.extend_from_slice(&b[p..p + 1]); loop { if *b.get(q)? == 0xff { out.push(0xff); return Some(q + 1) } q = reframe_item(rng, b, q, out)?; } }
+            let e = q + h.arg as usize;
+            let body = b.get(q..e)?;
+            if rng.gen_range(0..4) == 0 {
+                // chunked: split at positions that are not UTF-8 continuation bytes
+                out.push((h.major << 5) | 31);
+                let mut start = 0;
+                while start < body.len() {
+                    let mut end = (start + rng.gen_range(1..=body.len() - start)).min(body.len());
+                    while end < body.len() && (body[end] & 0xc0) == 0x80 { end += 1 }
+                    let w = pick_width(rng, (end - start) as u64, true);
+                    head(out, h.major, (end - start) as u64, w); out.extend_from_slice(&body[start..end]);
+                    start = end;
+                }
+                out.push(0xff);
+            } else {
+                let w = pick_width(rng, h.arg, true);
+                head(out, h.major, h.arg, w); out.extend_from_slice(body);
+            }
+            Some(e)
+        }
+        _ => {
+            let indef_in = h.info == 31;
+            let n = if h.major == 4 { h.arg } else { h.arg * 2 };
+            let make_indef = indef_in || rng.gen_range(0..3) == 0;
+            if make_indef { out.push((h.major << 5) | 31) } else { let w = pick_width(rng, h.arg, true); head(out, h.major, h.arg, w) }
+            if indef_in { loop { if *b.get(q)? == 0xff { q += 1; break } q = reframe_item(rng, b, q, out)?; } }
+            else { for _ in 0..n { q = reframe_item(rng, b, q, out)?; } }
+            if make_indef { out.push(0xff) }
+            Some(q)
+        }
+    }
+}
+
+/// The same data item with other head widths, indefinite containers and chunked strings.
+pub fn reframe(rng: &mut StdRng, b: &[u8]) -> Vec<u8> {
+    let mut out = Vec::new();
+    match reframe_item(rng, b, 0, &mut out) { Some(e) if e == b.len() => out, _ => b.to_vec() }
+}
+
+const BOUNDARY: &[u64] = &[0, 1, 23, 24, 25, 127, 128, 255, 256, 257, 32767, 32768, 65535, 65536, 65537, 999_999_999, 1_000_000_000,
+    0x7fff_ffff, 0x8000_0000, 0xffff_ffff, 0x1_0000_0000, 0x1_0000_0001, 0x7fff_ffff_ffff_ffff, 0x8000_0000_0000_0000, 0xffff_ffff_ffff_fffe, 0xffff_ffff_ffff_ffff];
+
+/// Type-directed mutations of a valid encoding: a head argument replaced by a boundary value, definite <-> indefinite,
+/// truncation, a spliced sibling, a changed byte.
+pub fn typed_mutations(rng: &mut StdRng, enc: &[u8]) -> Vec<Vec<u8>> {
+    let mut heads = Vec::new();
+    let _ = walk(enc, 0, &mut |h| heads.push(h));
+    let mut out = Vec::new();
+    if !heads.is_empty() {
+        for _ in 0..3 {
+            let h = heads[rng.gen_range(0..heads.len())];
+            if h.info == 31 { continue }
+            let arg = BOUNDARY[rng.gen_range(0..BOUNDARY.len())];
+            let mut m = enc[..h.off].to_vec();
+            let w = pick_width(rng, arg, true);
+            head(&mut m, h.major, arg, w);
+            m.extend_from_slice(&enc[h.off + h.hl..]);
+            out.push(m);
+        }
+        // every (head, boundary) pair for small encodings
+        if enc.len() <= 24 && heads.len() <= 4 {
+            for h in &heads { if h.info == 31 { continue } for &arg in BOUNDARY {
+                let mut m = enc[..h.off].to_vec(); head(&mut m, h.major, arg, min_width(arg)); m.extend_from_slice(&enc[h.off + h.hl..]); out.push(m);
+            } }
+        }
+        // definite container -> indefinite without break / with break
+        let h = heads[rng.gen_range(0..heads.len())];
+        if (h.major == 4 || h.major == 5) && h.info != 31 {
+            let mut m = enc[..h.off].to_vec(); m.push((h.major << 5) | 31); m.extend_from_slice(&enc[h.off + h.hl..]); out.push(m.clone());
+            m.push(0xff); out.push(m);
+        }
+        // splice: repeat the bytes from a head to the end
+        let h = heads[rng.gen_range(0..heads.len())];
+        let mut m = enc.to_vec(); m.extend_from_slice(&enc[h.off..]); out.push(m);
+    }
+    if !enc.is_empty() { out.push(enc[..rng.gen_range(0..enc.len())].to_vec()); }
+    out.push(mutate(rng, enc));
+    out
+}
